@@ -8,6 +8,7 @@ import (
 	"errors"
 	"flag"
 	"fmt"
+	"github.com/transparency-dev/witness/internal/distribute/rest"
 	"io"
 	"net/http"
 	"net/http/httptest"
@@ -455,6 +456,25 @@ func execPhase(base *world.World, tag string, phase int, steps []seqStep, storeK
 			pre = takeSnapshot(w, st.p)
 			// (the skip event appended above stands for a restore that could not be done; this one tells the judge what is stored now)
 			events[len(events)-1] = restoreEvent{E: "restore", Run: tag, K: k, Log: s.Log, Cls: s.Cls, Stored: project(w, pre)}
+			continue
+		case "distribute":
+			// the witness' own REST distributor makes a pass, wired as Main wires it (same adapter, the logs' configuration, the witness' verifier);
+			// the distributor service answers 200 to everything (a transport without a network). It only reads: nothing observable may change.
+			events = append(events, skipEvent{E: "skip", Run: tag, K: k})
+			if fl != nil || holder != nil {
+				continue
+			}
+			logs, err := bastionLogs(w)
+			if err != nil {
+				return nil, err
+			}
+			_, witV, err := witnessSigners(w)
+			if err != nil {
+				return nil, err
+			}
+			if d, err := rest.NewDistributor("http://distributor.invalid", &http.Client{Transport: okTransport{}}, logs, witV, witnessAdapterOf(wit)); err == nil {
+				_ = d.DistributeOnce(ctx)
+			}
 			continue
 		case "migrate":
 			// the file the witness runs on is replaced by one with the same content written the way the RELEASE under verification writes it
@@ -1059,4 +1079,15 @@ func nonNil(s []string) []string {
 func readBack(wit interface{ GetCheckpoint(string) ([]byte, error) }, id string, ret []byte) bool {
 	b, err := wit.GetCheckpoint(id)
 	return err == nil && string(b) == string(ret)
+}
+
+// okTransport answers every request with an empty 200 (no network involved).
+type okTransport struct{}
+
+func (okTransport) RoundTrip(r *http.Request) (*http.Response, error) {
+	if r.Body != nil {
+		io.Copy(io.Discard, r.Body)
+		r.Body.Close()
+	}
+	return &http.Response{StatusCode: 200, Status: "200 OK", Proto: "HTTP/1.1", ProtoMajor: 1, ProtoMinor: 1, Header: http.Header{}, Body: io.NopCloser(strings.NewReader("")), Request: r}, nil
 }
